@@ -79,11 +79,12 @@ theorem C16_probes_bypass_cache : ¬ C16_stat_opened_at_most_once_Literal := by
   revert this
   decide
 
-/-- **fresh after exit.** Outside every block a call's result depends on the current world only … -/
+/-- **fresh after exit.** Outside every block a call's result depends on the current world only
+    (`bodyG` = the method computed from scratch on a fresh specification state) … -/
 theorem C16_fresh_after_exit (ops : List Op) (m : Meth)
     (hout : (runAll cfg Sys.init ops).st.stack = []) :
     (call cfg m (runAll cfg Sys.init ops).st (runAll cfg Sys.init ops).w).2 =
-      (bodyS m SSt.init (runAll cfg Sys.init ops).w).2 :=
+      (bodyG m SSt.init (runAll cfg Sys.init ops).w).2 :=
   fresh_after_exit cfg cfg_good ops m hout
 
 /-- … because leaving the outermost level drops both caches, normally (`b = false`) and by an
